@@ -49,7 +49,7 @@ def scenario(sid, ops, plan, kind):
 
 def scenarios(sc, tier, seed):
     scs = []
-    for cfg, kind in (('MC_FlushProto_F16.cfg', 'asis'), ('MC_FlushProto_DevL1.cfg', 'window'), ('MC_FlushProto_DevL1b.cfg', 'window')):
+    for cfg, kind in (('MC_FlushProto_F16.cfg', 'asis'), ('MC_FlushProto_DevL1.cfg', 'window'), ('MC_FlushProto_DevL1u.cfg', 'window'), ('MC_FlushProto_DevL1b.cfg', 'window')):
         o, _ = tlc_run(sc, cfg, cfg[:-4], workers=1)
         labels = re.findall(r'^State \d+: <(\w+)', o, re.M)
         ops = _ops(o)
@@ -85,7 +85,7 @@ def impl_check(sc, runs, tag):
     for f in ('FlushProto.tla', 'TraceFPImpl.tla'):
         shutil.copy(os.path.join(vlib.SPEC, f), wd)
     open(os.path.join(wd, 'TraceFPImpl.cfg'), 'w').write(
-        'SPECIFICATION TSpec\nPOSTCONDITION Report\nCHECK_DEADLOCK FALSE\nCONSTANTS\n  Cap = 2\n  MaxN = 3\n  NOps = 2\n  Dev_NoStaleCheck = FALSE\n  Dev_NoRearm = FALSE\n  EagerKernel = TRUE\n')
+        'SPECIFICATION TSpec\nPOSTCONDITION Report\nCHECK_DEADLOCK FALSE\nCONSTANTS\n  Cap = 2\n  MaxN = 3\n  NOps = 2\n  Dev_NoStaleCheck = FALSE\n  Dev_NoStaleCheckUntimed = FALSE\n  Dev_NoRearm = FALSE\n  EagerKernel = TRUE\n')
     blank = {'g': '', 'pt': 0, 'flock': 0, 'wt': 0, 'blen': 0, 'sock': 0, 'tick': 0, 'n1': 1, 't1': 0, 'n2': 1, 't2': 0}
     n = 0
     with open(os.path.join(wd, 'sched.ndjson'), 'w') as f:
